@@ -43,13 +43,13 @@ CHECKS = {
     "C06": dict(
         pkg="c06", race=False, shard_env={"GO_CONCURRENCY_LIMIT_LOG10ROOT_PRE_COMPUTE": "4096", "GO_CONCURRENCY_LIMIT_SQRT_PRE_COMPUTE": "4096"}, shards=(4, 16), timeout_s=(300, 1800),
         technique="before/after monitor on drop samples from seeded reachable states + bounded-progress monitor on sustained drop runs",
-        level_text="One Gradient sustained run in eight uses negative RTTs (a drop is a drop whatever it measured). Vegas with a caller-supplied baseline measurement (SingleMeasurement): drops whose RTT is not below the baseline are applied (at most every second sample of a strictly rising run can be a probe). One Vegas / Gradient case in eight asks for the default maximum (the configured minimum still holds). A quarter of the Vegas cases carry caller-supplied step / threshold functions. From PRNG-generated reachable states (config + random prior history) every drop sample is checked for non-increase of the "
+        level_text="One Vegas sustained run in eight consists of drops that all measured 0 ns (probes are paid for in the bound: 2B+8 samples). One Gradient sustained run in eight uses negative RTTs (a drop is a drop whatever it measured). Vegas with a caller-supplied baseline measurement (SingleMeasurement): drops whose RTT is not below the baseline are applied (at most every second sample of a strictly rising run can be a probe). One Vegas / Gradient case in eight asks for the default maximum (the configured minimum still holds). A quarter of the Vegas cases carry caller-supplied step / threshold functions. From PRNG-generated reachable states (config + random prior history) every drop sample is checked for non-increase of the "
                    "reported estimate, AIMD additionally for the exact rule max(1,min(limit-1,floor(limit*ratio))) (exact rational and float floor "
                    "both accepted); sustained drop runs with unique increasing RTTs (so probes are observable) must reach the floor within an "
                    "analytic bound of effective samples; cap without enough effective samples is inconclusive. Concurrent: N drops delivered to one AIMD limit at once must "
                    "compose exactly; 2-8 goroutines deliver only drops to one Vegas / Gradient limit (large limits, the user-supplied queue function yields "
                    "or sleeps 20us) and the values reported to a change listener never rise. Exploration.",
-        require=["vegas_cases_with_caller_supplied_baseline_measurement", "cases_asking_for_the_default_maximum", "vegas_cases_with_caller_supplied_functions", "concurrent_drop_rounds/vegas", "concurrent_drop_rounds/gradient", "single_drop_samples", "single_drop_lowered", "aimd_exact_rule_checks", "sustained_drop_samples",
+        require=["vegas_sustained_runs_of_drops_at_rtt_zero", "vegas_cases_with_caller_supplied_baseline_measurement", "cases_asking_for_the_default_maximum", "vegas_cases_with_caller_supplied_functions", "concurrent_drop_rounds/vegas", "concurrent_drop_rounds/gradient", "single_drop_samples", "single_drop_lowered", "aimd_exact_rule_checks", "sustained_drop_samples",
                  "floor_reached/aimd", "floor_reached/vegas", "floor_reached/gradient", "probe_or_baseline_samples_observed", "concurrent_drop_rounds"],
         rule="case = (algorithm in AIMD/Vegas/Gradient, valid config, random prefix of 0-150 benign/hostile samples) then either 1-4 hostile drop "
              "samples or a sustained drop run; non-trivial = some drop lowered the estimate / the run started above the floor; distinct = "
